@@ -13,7 +13,8 @@ import numpy as np
 import vlib
 
 LEVEL = "proof"
-COQ_MODULES = ["BH"]
+EXTRA_PROPERTY_FILES = ["C19_energy"]   # CMMaterialProp::DoEnergy / DoCoEnergy of nonlinear materials (BHEnergy.v)
+COQ_MODULES = ["BH", "BHEnergy"]
 ASSUMPTIONS = [
     "theorems about the stored slopes (spline equations, straight-line table => constant slopes) are conditional on GaussSolve's own success flag; that flag is evaluated by the float model on every generated table and a False is reported as a violation",
     "theorems are about the real-number reading of the model; rounding error between the float and real readings is not bounded (the float reading is compared with the C++ bit for bit on the generated tables)",
@@ -143,6 +144,102 @@ def case_text(t, samples):
     return "\n".join(L) + "\n"
 
 
+# ------------------------------------------------------- post-processor energy densities ----
+HEADER_E = ("From Coq Require Import ZArith List Floats. Import ListNotations. "
+            "From XF Require Import Arith BH BHEnergy. Local Open Scope float_scope.")
+
+
+def post_energy(ctx, tables):
+    """CMMaterialProp::DoEnergy / DoCoEnergy(double,double) of nonlinear materials (what fpproc evaluates for the point value E and
+    the block integrals of energy and coenergy): every table, lamination types 0, 1, 2 with its fill factor (fill < 1 forced for
+    a third of the tables), flux densities inside and beyond the table in several directions.  (1) model BHEnergy.v bit for bit;
+    (2) oracle independent of the routine's mixing code: LamType 0 -> exactly GetEnergy(|b|) of the same object (axis-parallel
+    b: |b| is exact), LamType 1/2 -> fill*GetEnergy(biron) + (1-fill)*bair^2/(2 mu0) with GetEnergy(biron) sampled separately"""
+    rng = vlib.Rng(ctx.seed + 1919)
+    st = dict(cases=0, values=0, bit=0, oracle_values=0, by_lamtype={0: 0, 1: 0, 2: 0}, fill_below_one=0)
+    dis, todo = [], []
+    exe = vlib.build_harness(ensure_snap(ctx), "h_bh")
+    for t in tables:
+        if len(t["B"]) < 2:
+            continue
+        u = dict(t)
+        q = rng.random()
+        if q < 0.35:
+            u["lamtype"] = rng.choice([0, 0, 1, 2])
+            u["lamfill"] = float(rng.choice([0.5, 0.9, 0.95, 0.98, rng.uniform(0.3, 0.999)]))
+        bmax = u["B"][-1]
+        pairs = []
+        for x in [bmax * f for f in (0.05, 0.37, 0.81, 1.0, 1.3, 2.5)]:
+            pairs += [(x, 0.0), (0.0, x), (0.6 * x, 0.8 * x), (-0.28 * x, 0.96 * x)]
+        f, muo = u["lamfill"], MUO
+        irons = []
+        for (b1, b2) in pairs:
+            if u["lamtype"] == 1:
+                irons.append((math.sqrt((b1 / f) * (b1 / f) + b2 * b2), b2))
+            elif u["lamtype"] == 2:
+                irons.append((math.sqrt((b2 / f) * (b2 / f) + b1 * b1), b1))
+            else:
+                irons.append((math.sqrt(b1 * b1 + b2 * b2), 0.0))
+        todo.append((u, pairs, irons))
+    txt = ""
+    for (u, pairs, irons) in todo:
+        hx = lambda l: " ".join(float(x).hex() for x in l)
+        txt += "\n".join(["case %d" % u["id"], "lam %d %s" % (u["lamtype"], float(u["lamfill"]).hex()), "B " + hx(u["B"]),
+                          "H " + hx(u["H"]), "sample " + hx([i[0] for i in irons]),
+                          "dsample " + hx([v for pr in pairs for v in pr]), "end"]) + "\n"
+    rc, out, err = vlib.sh([exe, str(TIME_LIMIT)], inp=txt, timeout=120 + len(todo))
+    res, cur = {}, None
+    for line in out.split("\n"):
+        tk = line.split()
+        if not tk:
+            continue
+        if tk[0] == "case":
+            cur = dict(s=[], d=[], done=False); res[int(tk[1])] = cur
+        elif cur is not None and tk[0] in ("s", "d"):
+            cur[tk[0]].append([float(x) for x in tk[1:]])
+        elif cur is not None and tk[0] == "end":
+            cur["done"] = True
+    exprs, keep = [], []
+    for (u, pairs, irons) in todo:
+        r = res.get(u["id"])
+        if not r or not r["done"] or len(r["d"]) != len(pairs):
+            continue            # GetSlopes did not finish in time: reported by the main evaluation
+        fh = vlib.fhex
+        exprs.append("run_case_e FA %s %d%%nat %s %s [%s] [%s] [%s]" % (
+            FUEL, u["lamtype"], fh(u["lamfill"]), fh(MUO), "; ".join(fh(b) for b in u["B"]),
+            "; ".join("(%s, 0)" % fh(h) for h in u["H"]), "; ".join("(%s, %s)" % (fh(a), fh(b)) for a, b in pairs)))
+        keep.append((u, pairs, irons, r))
+    vals = vlib.coq_eval(HEADER_E, exprs) if exprs else []
+    for (u, pairs, irons, r), mv in zip(keep, vals):
+        st["cases"] += 1
+        st["by_lamtype"][u["lamtype"]] += 1
+        st["fill_below_one"] += 1 if u["lamfill"] < 1 else 0
+        done, mvals = mv
+        f = u["lamfill"]
+        for k, ((b1, b2), (biron, bair), d, s) in enumerate(zip(pairs, irons, r["d"], r["s"])):
+            # oracle: s[4] = GetEnergy(biron), s[5] = GetCoEnergy(biron) of the same object
+            for nm, got, raw in (("DoEnergy", d[0], s[4]), ("DoCoEnergy", d[1], s[5])):
+                want = raw if u["lamtype"] == 0 else f * raw + (1 - f) * bair * bair / (2. * MUO)
+                st["oracle_values"] += 1
+                exact_mag = u["lamtype"] != 0 or b1 == 0.0 or b2 == 0.0
+                tol = 1e-12 if exact_mag else 1e-9
+                if abs(got - want) > tol * max(abs(want), abs(raw), 1e-300):
+                    ctx.fail("post-processor energy density: %s(%.17g, %.17g) = %.17g for LamType %d, fill %.6g, but the "
+                             "integral of the reported H dB of the iron share mixed with the air share is %.17g"
+                             % (nm, b1, b2, got, u["lamtype"], f, want), table=dict(u), signature="C19-post-energy")
+                    break
+            if done:
+                for nm, x, y in (("DoEnergy", d[0], mvals[k][0]), ("DoCoEnergy", d[1], mvals[k][1])):
+                    st["values"] += 1
+                    if vlib.ulp_diff(float(x), float(y)) == 0:
+                        st["bit"] += 1
+                    elif not vlib.close(float(x), float(y), 64, 1e-300):
+                        dis.append(dict(what="%s(%r, %r) of table %d (LamType %d, fill %r): implementation %r, model BHEnergy.v %r"
+                                        % (nm, b1, b2, u["id"], u["lamtype"], f, x, y), table=dict(u)))
+                        break
+    return dis[:5], st
+
+
 def ensure_snap(ctx):
     """Other checks running concurrently prune old snapshots; re-acquire ours (this also refreshes
     its time stamp) before every use."""
@@ -176,6 +273,8 @@ def run_impl(ctx, tables, samples):
             cur["mux"] = float(tk[1])
         elif tk[0] == "s":
             cur["s"].append([float(x) for x in tk[1:]])
+        elif tk[0] == "d":
+            cur.setdefault("d", []).append([float(x) for x in tk[1:]])
         elif tk[0] == "end":
             cur["done"] = True
     return rc, res, err
@@ -529,8 +628,11 @@ def correspond(ctx):
         t["id"] = k
     fails, dis, st = evaluate(ctx, tables)
     report_failures(ctx, fails)
+    edis, est = post_energy(ctx, tables)
+    dis = list(dis) + edis
     sres = solver_pairs(ctx)
     cov = ctx.res.cov
+    cov["post_processor_energy_densities"] = est
     cov["evaluations"] = len(tables) + sres["runs"]
     cov["distinct_nontrivial"] = len(st["nontrivial"])
     cov["rule"] = ("seeded monotone B-H tables (2..40 points; straight lines through the origin, exactly representable "
